@@ -549,6 +549,7 @@ func (r *v06Run) step(id int, step map[string]interface{}) v06Event {
 }
 
 func TestVerifMetadataFSM(t *testing.T) {
+	vFSelectIO("FSM06")
 	sf := vLoadStimuli(t)
 	tw := vOpenTrace(t)
 	defer tw.Close()
